@@ -2335,7 +2335,7 @@ def main():
     try:
         text = Translator(path).run() if which == "classification" else (CompTranslator(repo).run() if which == "compiler" else (PSTranslator(repo).run() if which == "pstring" else (CollTranslator(repo).run() if which == "collection" else (ParserTranslator(repo).run() if which == "parser" else (AppTranslator(repo).run() if which == "apps" else TableTranslator(repo).run())))))
     except Unsupported as e:
-        print("py2coq: cannot translate %s: %s" % (path, e)); sys.exit(3)
+        print("py2coq: cannot translate %s: %s" % ("common/get_graph.py, application/otoc.py, fourpoint.py, charges.py or the graph methods of the collection" if which == "apps" else path, e)); sys.exit(3)
     with open(dst, "w") as f:
         f.write(text)
     print("py2coq: wrote %s (%d lines)" % (dst, text.count("\n")))
